@@ -11,7 +11,9 @@ EXTENDS TraceBase, GoShape, Evolve
 VARIABLES l, bad, drift
 
 T(e) == Ref(e.case.tn)
-Want(e) == Project(e.case.W, e.case.S, T(e), T(e), e.case.v)
+\* the writer's type has the reader's name, except for the wide reader RdW (Rd plus fields nobody writes)
+TW(e) == IF Has(e.case, "wtn") THEN Ref(e.case.wtn) ELSE T(e)
+Want(e) == Project(e.case.W, e.case.S, TW(e), T(e), e.case.v)
 ValOf(e, r) == IF r.ok THEN FromGo(e.case.S, T(e), r.g) ELSE Bad
 
 Checks(e) ==
